@@ -53,6 +53,8 @@ enum TU {
     Lit(char),
     Bs(char),
     Par { braced: bool, p: String, m: Mo },
+    /// `$((…))`
+    Arith(Vec<TU>),
 }
 
 #[derive(Clone, Debug, PartialEq)]
@@ -74,6 +76,13 @@ fn tu_tokens(u: &TU, out: &mut Vec<String>) {
     match u {
         TU::Lit(c) => out.push(format!("L{}", tok_char(*c))),
         TU::Bs(c) => out.push(format!("B{}", tok_char(*c))),
+        TU::Arith(ts) => {
+            out.push("A[".into());
+            for t in ts {
+                tu_tokens(t, out);
+            }
+            out.push("]".into());
+        }
         TU::Par { braced: false, p, .. } => out.push(format!("${p}")),
         TU::Par { braced: true, p, m } => {
             out.push(format!("{{{p}"));
@@ -132,6 +141,16 @@ fn parse_tu<'a>(tok: &'a str, rest: &mut std::slice::Iter<'a, &'a str>) -> Optio
     }
     if let Some(h) = tok.strip_prefix('B') {
         return Some(TU::Bs(one_char(h)?));
+    }
+    if tok == "A[" {
+        let mut ts = vec![];
+        loop {
+            match rest.next().copied() {
+                Some("]") => return Some(TU::Arith(ts)),
+                None | Some("}") => return None,
+                Some(t) => ts.push(parse_tu(t, rest)?),
+            }
+        }
     }
     if let Some(p) = tok.strip_prefix('$') {
         return Some(TU::Par { braced: false, p: p.to_string(), m: Mo::None });
@@ -259,11 +278,14 @@ enum Ctx {
     BraceT,
     /// here-document content
     Here,
+    /// content of `$((…))`: text up to the balanced `))`, escapable `$` `` ` `` `\`
+    Arith,
 }
 
 fn lit_ok(c: char, ctx: Ctx) -> bool {
     match c {
         'a'..='z' | 'A'..='Z' | ':' | '*' | '\u{a0}' | '/' | '.' | ',' | '%' | '+' | '-' | '_' | '?' | '0'..='9' | '~' => true,
+        '(' | ')' | '<' | '>' | '&' | '|' | '^' | '=' | '!' | ';' if ctx == Ctx::Arith => true,
         ' ' => ctx != Ctx::Top,
         // bracket expressions in the pattern of a trim (always lexed in word context inside `${…}`)
         '[' | ']' | '!' | '^' | '=' => ctx == Ctx::BraceW,
@@ -281,7 +303,7 @@ fn bs_ok(c: char, ctx: Ctx) -> bool {
         Ctx::Top | Ctx::BraceW => true,
         Ctx::Dq => matches!(c, '$' | '`' | '"' | '\\'),
         Ctx::BraceT => matches!(c, '$' | '`' | '"' | '\\' | '}'),
-        Ctx::Here => matches!(c, '$' | '`' | '\\'),
+        Ctx::Here | Ctx::Arith => matches!(c, '$' | '`' | '\\'),
     }
 }
 
@@ -293,6 +315,28 @@ fn is_name_char(c: char) -> bool {
 fn render_tus(ts: &[TU], ctx: Ctx, out: &mut String) -> Option<()> {
     for (i, t) in ts.iter().enumerate() {
         match t {
+            TU::Arith(content) => {
+                // parentheses inside the content must balance (the lexer counts them)
+                let mut depth = 0i32;
+                for t in content {
+                    match t {
+                        TU::Lit('(') => depth += 1,
+                        TU::Lit(')') => {
+                            depth -= 1;
+                            if depth < 0 {
+                                return None;
+                            }
+                        }
+                        _ => {}
+                    }
+                }
+                if depth != 0 {
+                    return None;
+                }
+                out.push_str("$((");
+                render_tus(content, Ctx::Arith, out)?;
+                out.push_str("))");
+            }
             TU::Lit('\\') if matches!(ctx, Ctx::Dq | Ctx::BraceT) => {
                 // a backslash that escapes nothing stays literal inside double quotes
                 match ts.get(i + 1) {
@@ -344,7 +388,7 @@ fn render_tus(ts: &[TU], ctx: Ctx, out: &mut String) -> Option<()> {
                 out.push_str("${");
                 let wctx = match ctx {
                     Ctx::Top | Ctx::BraceW => Ctx::BraceW,
-                    Ctx::Dq | Ctx::BraceT | Ctx::Here => Ctx::BraceT,
+                    Ctx::Dq | Ctx::BraceT | Ctx::Here | Ctx::Arith => Ctx::BraceT,
                 };
                 match m {
                     Mo::None => out.push_str(p),
@@ -507,6 +551,9 @@ fn from_text_unit(t: &sx::TextUnit) -> Option<TU> {
                 },
             };
             TU::Par { braced: true, p: bp.param.id.clone(), m }
+        }
+        sx::TextUnit::Arith { content, .. } => {
+            TU::Arith(content.0.iter().map(from_text_unit).collect::<Option<Vec<_>>>()?)
         }
         _ => return None,
     })
@@ -728,6 +775,27 @@ fn error_class(e: &ExpError) -> String {
             }
         ),
         ErrorCause::NonassignableParameter(n) => format!("nonassignable:{}", vacancy_name(n.vacancy)),
+        ErrorCause::ArithError(e) => {
+            use yash_semantics::expansion::initial::ArithError as AE;
+            let c = match e {
+                AE::InvalidNumericConstant | AE::InvalidCharacter => "token",
+                AE::IncompleteExpression => "incomplete",
+                AE::MissingOperator => "missingop",
+                AE::UnclosedParenthesis { .. } => "unclosedparen",
+                AE::QuestionWithoutColon { .. } => "qnocolon",
+                AE::ColonWithoutQuestion => "colonnoq",
+                AE::InvalidOperator => "invalidop",
+                AE::NonPortableIncrementDecrement => "nonportable",
+                AE::InvalidVariableValue(_) => "badvalue",
+                AE::Overflow => "overflow",
+                AE::DivisionByZero => "divzero",
+                AE::LeftShiftingNegative => "lshiftneg",
+                AE::ReverseShifting => "revshift",
+                AE::AssignmentToValue => "assignvalue",
+                _ => "other",
+            };
+            format!("arith:{c}")
+        }
         ErrorCause::AssignReadOnly(a) => {
             format!("readonly:{}", a.vacancy.map(vacancy_name).unwrap_or("none"))
         }
@@ -810,7 +878,11 @@ fn config(script: String, st: &ShState) -> Config {
 
 /// the separator of `"$*"` / of joining in a non-splitting context, written out for the oracle
 fn oracle_join(fields: &[Vec<AttrChar>], env: &VEnv) -> Vec<AttrChar> {
-    let sep: Option<char> = match env.variables.get(IFS).and_then(|v| v.value.as_ref()) {
+    oracle_join_vars(fields, &env.variables)
+}
+
+fn oracle_join_vars(fields: &[Vec<AttrChar>], vars: &yash_env::variable::VariableSet) -> Vec<AttrChar> {
+    let sep: Option<char> = match vars.get(IFS).and_then(|v| v.value.as_ref()) {
         Some(Value::Scalar(s)) => s.chars().next(),
         Some(Value::Array(a)) => a.first().and_then(|s| s.chars().next()),
         None => Some(' '),
@@ -1343,6 +1415,170 @@ fn run_r(state_toks: &[&str], input_hex: &str) -> (String, String) {
     (obs, oracle)
 }
 
+// ------------------------------------------------------------------------------------------
+// `H`: the `Phrase` API on phrases of explicit shape
+
+fn parse_attr_char(t: &str) -> Option<AttrChar> {
+    let mut cs: Vec<char> = t.chars().collect();
+    let bits = cs.pop()?.to_digit(4)?;
+    let origin = match cs.pop()? {
+        'l' => Origin::Literal,
+        'h' => Origin::HardExpansion,
+        's' => Origin::SoftExpansion,
+        _ => return None,
+    };
+    let hex: String = cs.into_iter().collect();
+    let value = char::from_u32(u32::from_str_radix(&hex, 16).ok()?)?;
+    Some(AttrChar { value, origin, is_quoted: bits & 1 == 1, is_quoting: bits & 2 == 2 })
+}
+
+fn parse_attr_field(t: &str) -> Option<Vec<AttrChar>> {
+    if t == "-" { Some(vec![]) } else { t.split('_').map(parse_attr_char).collect() }
+}
+
+fn parse_phrase(t: &str) -> Option<Phrase> {
+    if let Some(c) = t.strip_prefix('C') {
+        Some(Phrase::Char(parse_attr_char(c)?))
+    } else if let Some(f) = t.strip_prefix('f') {
+        Some(Phrase::Field(parse_attr_field(f)?))
+    } else if t == "F." {
+        Some(Phrase::Full(vec![]))
+    } else if let Some(fs) = t.strip_prefix('F') {
+        Some(Phrase::Full(fs.split(',').map(parse_attr_field).collect::<Option<Vec<_>>>()?))
+    } else {
+        None
+    }
+}
+
+/// the phrase WITH its representation
+fn show_phrase(p: &Phrase) -> String {
+    match p {
+        Phrase::Char(c) => format!("C{}", show_attr(&[vec![*c]])),
+        Phrase::Field(f) => format!("f{}", show_attr(&[f.clone()])),
+        Phrase::Full(fs) => format!("F{}", show_attr(fs)),
+    }
+}
+
+/// `H ctx=<op> <state>* | <phrase> [;; <phrase>]`; oracle: the operation on the denotations, written out here
+fn run_h(state_toks: &[&str], text: &str) -> (String, String) {
+    let Some(st) = parse_state(state_toks) else {
+        return ("bad-case".into(), "-".into());
+    };
+    let Some(ps) = text.split(";;").map(|t| parse_phrase(t.trim())).collect::<Option<Vec<Phrase>>>() else {
+        return ("bad-case".into(), "-".into());
+    };
+    let den = |p: &Phrase| -> Vec<Vec<AttrChar>> { p.clone().into_iter().collect() };
+    let verdict = |ok: bool| if ok { "ok".to_string() } else { "FAIL:denotation".to_string() };
+    match (st.ctx.as_str(), ps.as_slice()) {
+        ("append", [a, b]) => {
+            let mut r = a.clone();
+            let mut other = b.clone();
+            r.append(&mut other);
+            // last field of the left glued to the first field of the right
+            let (da, db) = (den(a), den(b));
+            let expect: Vec<Vec<AttrChar>> = if da.is_empty() {
+                db
+            } else if db.is_empty() {
+                da
+            } else {
+                let mut e = da[..da.len() - 1].to_vec();
+                let mut glued = da[da.len() - 1].clone();
+                glued.extend(db[0].iter().copied());
+                e.push(glued);
+                e.extend(db[1..].iter().cloned());
+                e
+            };
+            let sum = a.clone() + b.clone();
+            (show_phrase(&r), verdict(den(&r) == expect && sum == r))
+        }
+        ("soften", [a]) => {
+            let mut r = a.clone();
+            r.for_each_char_mut(|c| {
+                if c.origin == Origin::Literal {
+                    c.origin = Origin::SoftExpansion;
+                }
+            });
+            let expect: Vec<Vec<AttrChar>> = den(a)
+                .into_iter()
+                .map(|f| {
+                    f.into_iter()
+                        .map(|mut c| {
+                            if c.origin == Origin::Literal {
+                                c.origin = Origin::SoftExpansion;
+                            }
+                            c
+                        })
+                        .collect()
+                })
+                .collect();
+            (show_phrase(&r), verdict(den(&r) == expect))
+        }
+        ("join", [a]) => {
+            let mut env = yash_env::Env::new_virtual();
+            let _ = env.variables.get_or_new(IFS, Scope::Global).assign(" \t\n", None);
+            for (name, _, val) in &st.vars {
+                match val {
+                    Some(v) => {
+                        let _ = env.variables.get_or_new(name.clone(), Scope::Global).assign(v.clone(), None);
+                    }
+                    None => {
+                        let _ = env.variables.unset(name, Scope::Global);
+                    }
+                }
+            }
+            let r = a.clone().ifs_join(&env.variables);
+            let expect = oracle_join_vars(&den(a), &env.variables);
+            (show_attr(&[r.clone()]), verdict(r == expect))
+        }
+        ("fields", [a]) => {
+            let fs = den(a);
+            let rq: Vec<String> = fs.iter().map(|f| unquote(f)).collect();
+            let ok = a.field_count() == fs.len() && a.is_zero_fields() == fs.is_empty();
+            (
+                format!("n={} {} rq={}", fs.len(), show_attr(&fs), show_fields(&rq)),
+                if ok { "-".to_string() } else { "FAIL:count".to_string() },
+            )
+        }
+        _ => ("bad-case".into(), "-".into()),
+    }
+}
+
+/// `T ctx=<front|every> n=<index> | <word>`: the word as lexed (`Word::from_str` parses no tilde), then the real
+/// `parse_tilde_front` / `parse_tilde_everywhere_after(index)`; observation: the resulting word.  Oracle: the lexed word
+/// is the word of the case, and the result re-rendered is the same source text (tilde parsing only regroups units).
+fn run_t(state_toks: &[&str], text: &str) -> (String, String) {
+    let (Some(st), Some(w)) = (parse_state(state_toks), parse_word(text)) else {
+        return ("bad-case".into(), "-".into());
+    };
+    // render behind a sentinel so that a leading `~` is written as it stands
+    let mut sentinel = vec![lit('a')];
+    sentinel.extend(w.iter().cloned());
+    let Some(src) = render(&sentinel).map(|s| s[1..].to_string()) else {
+        return ("unrenderable".into(), "-".into());
+    };
+    let Ok(mut word) = src.parse::<sx::Word>() else {
+        return ("syntax-error".into(), "FAIL:lex".into());
+    };
+    let mut oracle = vec![];
+    if from_word(&word).map(|x| word_string(&x)) != Some(word_string(&w)) {
+        oracle.push("parse".to_string());
+    }
+    let index = st.n.saturating_sub(0);
+    if index > word.units.len() {
+        return ("bad-case".into(), "-".into());
+    }
+    match st.ctx.as_str() {
+        "front" => word.parse_tilde_front(),
+        "every" => word.parse_tilde_everywhere_after(index),
+        _ => return ("bad-case".into(), "-".into()),
+    }
+    if word.to_string() != src {
+        oracle.push(format!("text:{}", enc_str(&word.to_string())));
+    }
+    let obs = from_word(&word).map(|x| word_string(&x)).unwrap_or_else(|| "unsupported".into());
+    (obs, if oracle.is_empty() { "ok".into() } else { format!("FAIL:{}", oracle.join(";")) })
+}
+
 fn run_ws() -> (String, String) {
     let mut ranges: Vec<(u32, u32)> = vec![];
     for n in 0..=0x10FFFFu32 {
@@ -1370,6 +1606,8 @@ fn run_case(case: &str) -> (String, String) {
         Some((&"W", st)) => run_w(st, r.trim()),
         Some((&"R", st)) => run_r(st, r.trim()),
         Some((&"P", st)) => run_p(st, r.trim()),
+        Some((&"H", st)) => run_h(st, r.trim()),
+        Some((&"T", st)) => run_t(st, r.trim()),
         _ => ("bad-case".into(), "-".into()),
     }
 }
@@ -1977,6 +2215,81 @@ fn tilde_state(r: &mut Rng) -> String {
     parts.join(" ")
 }
 
+/// the content of `$((…))` from source-like text: `$x`, `${x}`, `${u:-4}` become parameter units, the rest literals
+fn arith_content(src: &str) -> Vec<TU> {
+    let mut out = vec![];
+    let cs: Vec<char> = src.chars().collect();
+    let mut i = 0;
+    while i < cs.len() {
+        if cs[i] == '$' && i + 1 < cs.len() && cs[i + 1] == '{' {
+            let j = (i..cs.len()).find(|&k| cs[k] == '}').unwrap();
+            let body: String = cs[i + 2..j].iter().collect();
+            match body.split_once(":-") {
+                Some((p, w)) => out.push(braced(p, Mo::Sw { colon: true, act: '-', w: lits(w) })),
+                None => out.push(braced(&body, Mo::None)),
+            }
+            i = j + 1;
+        } else if cs[i] == '$' && i + 1 < cs.len() && (cs[i + 1].is_ascii_alphabetic() || cs[i + 1] == '#') {
+            out.push(raw(&cs[i + 1].to_string()));
+            i += 2;
+        } else if cs[i] == '@' {
+            // nested arithmetic expansion `$((1+1))`
+            out.push(TU::Arith(vec![TU::Lit('1'), TU::Lit('+'), TU::Lit('1')]));
+            i += 1;
+        } else {
+            out.push(TU::Lit(cs[i]));
+            i += 1;
+        }
+    }
+    out
+}
+
+/// arithmetic expansions (`initial/arith.rs` composed with the yash-arith model of C03): values, assignments that later
+/// units of the same word see, every error class (an erroring expression assigns nothing before the error), results
+/// that contain IFS characters, and the places an expansion can stand in
+const ARITH_EXPRS: [&str; 58] = [
+    "1+2", "x+1", "x*x", "x=5", "x+=2", "x++", "++x", "x--", "y=x", "r=2", "u", "u+1", "-x", "~x", "!x", "x<<2", "x>>1",
+    "x<3", "x==3", "x?1:2", "x&&u", "x||(y=4)", "(x+1)*2", "1/0", "1%0", "x/0", "100", "-5", "0-5", "010", "0x10", "08",
+    "1 +", "1 2", "1?2", "1:2", "", " ", "9223372036854775807+1", "1<<63", "-1<<1", "1<<-1", "1=2", "x=y=3", "1,2",
+    "$x+1", "${x}*2", "$y", "${u:-4}*2", "@*3", "x=@", " x + 1 ", "10-20", "101*1", "y+x", "e", "e+1", "$#+$#",
+];
+
+fn arith_family() -> Vec<Vec<WU>> {
+    let mut out = vec![];
+    for e in ARITH_EXPRS {
+        let a = WU::Unq(TU::Arith(arith_content(e)));
+        out.push(vec![a.clone()]);
+        out.push(vec![a.clone(), WU::Unq(raw("x"))]);
+        out.push(vec![WU::Unq(raw("x")), a.clone(), WU::Unq(raw("x")), WU::Unq(raw("y"))]);
+        out.push(vec![lit('a'), a.clone(), lit('b')]);
+        out.push(vec![WU::Dq(vec![TU::Arith(arith_content(e))])]);
+        out.push(vec![WU::Dq(vec![TU::Arith(arith_content(e)), raw("x")]), WU::Unq(raw("x"))]);
+        out.push(vec![a.clone(), lit('-'), WU::Unq(TU::Arith(arith_content("x")))]);
+        out.push(vec![WU::Unq(braced("u", Mo::Sw { colon: false, act: '-', w: vec![a.clone()] })), WU::Unq(raw("x"))]);
+        out.push(vec![WU::Unq(braced("x", Mo::Tr { side: '#', long: false, w: vec![a.clone()] }))]);
+    }
+    out
+}
+
+const ARITH_X: [&str; 11] = [
+    "x=s37", "x=s33", "x=s2d32", "x=s30", "x=s303130", "x=s61", "x=s-", "", "x=a2:31:32", "x=s2035", "x=s3130313031",
+];
+const ARITH_Y: [&str; 3] = ["", "y=s34", "y=s78"];
+const ARITH_IFS: [&str; 7] = ["", "IFS=s30", "IFS=s2d", "IFS=s31", "IFS=s-", "IFS=U", "IFS=s2d30"];
+
+fn arith_state(r: &mut Rng) -> String {
+    let mut parts: Vec<String> = vec![];
+    for s in [*r.pick(&ARITH_X), *r.pick(&ARITH_Y), "e=s-", *r.pick(&ARITH_IFS), *r.pick(&["", "", "!r=s31", "!r=U"]), *r.pick(&POS_STATES)] {
+        if !s.is_empty() {
+            parts.push(s.to_string());
+        }
+    }
+    if r.chance(1, 4) {
+        parts.push("nu=1".into());
+    }
+    parts.join(" ")
+}
+
 fn w_case(state: &str, w: &[WU]) -> String {
     format!("W {} | {}", state, word_string(w))
 }
@@ -2286,6 +2599,102 @@ fn main() {
         let long_line: String = format!("{}\n", "ab :\u{e9}\\ ".chars().cycle().take(400).collect::<String>());
         for ifs in ifss {
             out(format!("R {ifs} raw=0 n=3 | {}", enc_str(&long_line)).replace("R  ", "R "));
+        }
+    }
+    // 3a+. arithmetic expansions (own generator stream)
+    {
+        let mut arng = Rng::new(o.seed ^ 0xC01_A817);
+        let ka = if thorough { 40 } else { 4 };
+        for w in arith_family() {
+            if !renderable(&w) {
+                continue;
+            }
+            for k in 0..ka {
+                let st = arith_state(&mut arng);
+                if k % 4 == 3 {
+                    out(ctx_case(&mut arng, &st, &w));
+                } else {
+                    out(w_case(&st, &w));
+                }
+            }
+        }
+        // random token soups without assignment operators (an error then leaves the variables as they were)
+        let toks = ["1", "2", "10", "x", "u", "y", "+", "-", "*", "/", "%", "(", ")", "<<", "<", "?", ":", "&&", "!", "~", "$x", "${u:-3}", "0"];
+        let ns = if thorough { 40_000 } else { 1_500 };
+        let mut made = 0;
+        while made < ns {
+            let n = 1 + arng.below(6);
+            let src: Vec<&str> = (0..n).map(|_| *arng.pick(&toks)).collect();
+            let a = WU::Unq(TU::Arith(arith_content(&src.join(" "))));
+            let w = if arng.chance(1, 2) { vec![a] } else { vec![WU::Unq(raw("x")), a, lit(':'), WU::Unq(raw("y"))] };
+            if !renderable(&w) {
+                continue;
+            }
+            made += 1;
+            let st = arith_state(&mut arng);
+            out(w_case(&st, &w));
+        }
+    }
+    // 3a-. tilde-prefix parsing on lexed words: every word of <= 5 units over a small alphabet, both functions,
+    // every start index
+    {
+        let alpha: Vec<WU> = vec![
+            lit('~'), lit('a'), lit('/'), lit(':'), WU::Sq("a".into()), WU::Unq(raw("x")), WU::Dq(vec![TU::Lit('~')]),
+            WU::Unq(TU::Bs('~')),
+        ];
+        let maxlen = if thorough { 5 } else { 4 };
+        let mut tcount = 0usize;
+        let mut frontier: Vec<Vec<WU>> = vec![vec![]];
+        for _ in 0..maxlen {
+            let mut next = vec![];
+            for w in &frontier {
+                for u in &alpha {
+                    let mut v = w.clone();
+                    v.push(u.clone());
+                    next.push(v);
+                }
+            }
+            for w in &next {
+                // only words with a tilde are interesting; keep one in nine of the others
+                let has = w.contains(&lit('~'));
+                tcount += 1;
+                if !has && tcount % 9 != 0 {
+                    continue;
+                }
+                // quick tier: a third of the four-unit words
+                if !thorough && w.len() == 4 && tcount % 3 != 0 {
+                    continue;
+                }
+                let mut sentinel = vec![lit('a')];
+                sentinel.extend(w.iter().cloned());
+                if !renderable(&sentinel) {
+                    continue;
+                }
+                out(format!("T ctx=front n=0 | {}", word_string(w)));
+                for i in 0..=w.len().min(3) {
+                    out(format!("T ctx=every n={i} | {}", word_string(w)));
+                }
+            }
+            frontier = next;
+        }
+    }
+    // 3a''. the `Phrase` API on every constructor shape: a single Char, one Field (empty, one, several characters),
+    // Full with no / one / several fields (also empty ones) — append on all pairs, the re-attribution, `$*` joining under
+    // several IFS values, conversion to fields and quote removal
+    {
+        let shapes = [
+            "C61l0", "C20s0", "C22l2", "f-", "f61l0", "f61l0_20s0", "f22l2_62l1_22l2", "f2fh0_5cl2_61l1", "F.", "F-", "F61l0",
+            "F61l0_3as0", "F61l0,20s0", "F-,-", "F61l0_20s0,62l1,-", "F22l2_61l1_22l2,22l2_22l2",
+        ];
+        for a in shapes {
+            for b in shapes {
+                out(format!("H ctx=append | {a} ;; {b}"));
+            }
+            out(format!("H ctx=soften | {a}"));
+            out(format!("H ctx=fields | {a}"));
+            for ifs in ["", "IFS=U", "IFS=s-", "IFS=s3a20", "IFS=a2:2d:3a", "IFS=a0", "IFS=sc3a9"] {
+                out(format!("H ctx=join {ifs} | {a}").replace("join  |", "join |"));
+            }
         }
     }
     // 3b. the braced-parameter lexer: everything that can follow `${`, up to 4 (thorough 5) characters
